@@ -52,7 +52,9 @@ STAGE_OF_FIXTURE = {'mapping': 'mapping', 'stats': 'stats',
                     'refMarkers.transpose': 'refMarkers',
                     'pMask': 'pMask', 'pMarkers': 'pMarkers',
                     'pMarkers.transpose': 'pMarkers',
-                    'selection': 'selection', 'transpose': 'transpose'}
+                    'selection': 'selection',
+                    'selection.behemoth': 'selection',
+                    'transpose': 'transpose'}
 SUCCESS_LINE = 'RAN SUCCESSFULLY'
 
 
@@ -487,7 +489,7 @@ def run_faults(ctx):
                 n_workers = rec.started
                 ctx.count('workers:%s:%d' % (fixture, n_workers))
                 ctx.case(None)
-                if ctx.tier == 'quick':
+                if ctx.tier == 'quick' and fixture != 'selection.behemoth':
                     workers = sorted({0, n_workers - 1})
                 else:
                     workers = list(range(n_workers))
@@ -496,7 +498,12 @@ def run_faults(ctx):
                         for mi, mode in enumerate(faults.MODES):
                             # quick: all 9 combinations on the last worker,
                             # one mode per point on the first
-                            if ctx.tier == 'quick' and w != workers[-1] \
+                            if fixture == 'selection.behemoth':
+                                # every worker (each behemoth in turn):
+                                # the scheduler treats them differently
+                                if ctx.tier == 'quick' and point == 'mid':
+                                    continue
+                            elif ctx.tier == 'quick' and w != workers[-1] \
                                     and mi != pi:
                                 continue
                             check_fault(ctx, fixture, prob_seed, n_leaves,
